@@ -47,12 +47,12 @@ void chk_describe(FILE *f)
 }
 
 /* descriptor kept outside the world so that it can be rebuilt at several capacities */
-#define MAXC 14
-static struct dcmd { char name[16]; char desc[24]; bool has_desc, only_test, disable, implicit; int grp; unsigned hmask; int nv; struct { int type, access; size_t size; char name[56]; bool named, nodata; } v[6]; } D[MAXC];
+#define MAXC 16
+static struct dcmd { char name[16]; char desc[24]; bool has_desc, only_test, disable, implicit, need_all; int grp; unsigned hmask; int nv; struct { int type, access; size_t size; char name[56]; bool named, nodata; } v[6]; } D[MAXC];
 static int ND, NG; static bool gdis[MAXGRP];
 static void gen_descriptor(void)
 {
-        NG = 1 + (int)rn(6); ND = NG + (int)rn(MAXC - 2 - (unsigned)NG);
+        NG = 1 + (int)rn(6); ND = NG + (int)rn(MAXC - 4 - (unsigned)NG);
         for (int g = 0; g < MAXGRP; g++) gdis[g] = chance(NG > 2 ? 40 : 15);
         for (int i = 0; i < ND; i++) {
                 struct dcmd *d = &D[i]; memset(d, 0, sizeof *d);
@@ -60,8 +60,12 @@ static void gen_descriptor(void)
                 d->has_desc = chance(40); snprintf(d->desc, sizeof d->desc, "d%d%s", i, chance(50) ? " some text" : chance(30) ? " 0-100% %s%d" : "");      /* descriptor strings are data, not formats */ if (chance(8)) d->desc[0] = 0;      /* an empty description is still a description: the newline is printed */
                 d->only_test = chance(12); d->disable = chance(12); d->implicit = chance(10); d->grp = i < NG ? i : (int)rn((unsigned)NG);
                 d->hmask = rn(16); if (d->implicit) d->hmask &= 4;
+                d->need_all = chance(30);
                 d->nv = chance(65) ? 1 + (int)rn(6) : 0;
                 for (int j = 0; j < d->nv; j++) { d->v[j].type = (int)rn(5); d->v[j].access = (int)rn(3); d->v[j].size = d->v[j].type <= CAT_VAR_NUM_HEX ? (size_t[]){ 1, 2, 4 }[rn(3)] : 1 + rn(8); d->v[j].named = chance(60); snprintf(d->v[j].name, sizeof d->v[j].name, chance(10) ? "V%d%%s" : chance(8) ? "a_rather_long_parameter_name_number_%d_of_this_cmd" : "V%d", j); d->v[j].nodata = d->only_test && chance(30); }      /* a test-only command documents its parameters: such variables need no storage */
+        }
+        if (chance(25)) {      /* a disabled implicit-write command whose name is a prefix of every other name: invisible, it must not cut the names that start with it */
+                struct dcmd *z = &D[ND]; memset(z, 0, sizeof *z); strcpy(z->name, "+C"); z->disable = true; z->implicit = true; z->hmask = 4; z->grp = (int)rn((unsigned)NG); ND++;
         }
         /* the help command comes last, in the last group */
         struct dcmd *h = &D[ND]; memset(h, 0, sizeof *h); strcpy(h->name, "#H"); h->hmask = 1; h->grp = NG - 1; ND++;
@@ -80,7 +84,7 @@ static void build(size_t capA, bool shared, size_t capU)
                         if (D[i].grp != g) continue;
                         struct dcmd *d = &D[i]; struct cat_command *c = &arr[j++]; order[k++] = i;
                         c->name = xstr(d->name); c->description = d->has_desc ? xstr(d->desc) : NULL;
-                        c->only_test = d->only_test; c->disable = d->disable; c->implicit_write = d->implicit;
+                        c->only_test = d->only_test; c->disable = d->disable; c->implicit_write = d->implicit; c->need_all_vars = d->need_all;
                         c->run = (d->hmask & 1) ? h_run : NULL; c->read = (d->hmask & 2) ? h_read : NULL; c->write = (d->hmask & 4) ? h_write : NULL; c->test = (d->hmask & 8) ? h_test : NULL;
                         struct cat_variable *v = w_vars(c, (size_t)d->nv);
                         for (int q = 0; q < d->nv; q++) { v[q].type = (cat_var_type)d->v[q].type; v[q].access = (cat_var_access)d->v[q].access; v[q].name = d->v[q].named ? xstr(d->v[q].name) : NULL; if (d->v[q].nodata) { v[q].data = NULL; v[q].data_size = d->v[q].size; CNT("variables_without_storage_on_test_only_commands"); continue; }
@@ -298,7 +302,7 @@ void chk_run_case(uint64_t seed, long c, bool is_sweep)
         if (chance(8)) { view_groups_case(); return; }
         gen_descriptor();
         test_chain = chance(50);
-        int target = (int)rn((unsigned)ND - 2);
+        int target = (int)rn((unsigned)ND - 2); if (strcmp(D[target].name, "+C") == 0) target = 0;
         /* generous build: reference lengths, cross-check */
         build(700, chance(50), 700);
         char ref[800]; int tl = ref_fmt_test(W.cmd[widx(D[target].name)], "\n", ref, sizeof ref);
